@@ -32,6 +32,21 @@ def norm(x: Any) -> Any:
     return sort_seqs(wire.normalise(x)) if ORDER_FREE else wire.normalise(x)
 
 
+def has_set(xd: Any) -> bool:
+    if isinstance(xd, dict):
+        return xd.get("t") == "set" or any(has_set(v) for v in xd.values())
+    if isinstance(xd, list):
+        return any(has_set(v) for v in xd)
+    return False
+
+
+def order_decided_by_a_set(xd: Any) -> bool:
+    """the case has a coercer that turns a set into a sequence and this value holds a set: which element meets which
+    position (and so which errors arise) depends on the set object's iteration order, which the equal object an oracle
+    rebuilds need not share - nothing can be compared"""
+    return ORDER_FREE and has_set(xd)
+
+
 def sort_seqs(x: Any) -> Any:
     """forget the order of every list / tuple value (used when the order was decided by iterating a set)"""
     if isinstance(x, dict):
@@ -543,6 +558,8 @@ def oracle_C03(case: dict, real: dict, model: dict) -> List[str]:
         if v["k"] == "ntuple" and len(elems) != len(kids):
             out.append(f"{m}: n-tuple of wrong arity got past the arity check")
             continue
+        if order_decided_by_a_set(elems):
+            continue
         results = [run_alone(cv, env, el, m)["out"] for cv, el in zip(kids, elems)]
         if any("raised" in r for r in results):
             continue
@@ -648,6 +665,8 @@ def check_map(v: dict, env: List[dict], x: dict, o: dict, m: str) -> List[str]:
     kr = [run_alone(v["key"], env, kk, m)["out"] for kk, _ in x["kvs"]]
     vr = [run_alone(v["value"], env, vv, m)["out"] for _, vv in x["kvs"]]
     if any("raised" in r for r in kr + vr):
+        return out
+    if order_decided_by_a_set(x["kvs"]):
         return out
     bad = [i for i in range(len(kr)) if "invalid" in kr[i] or "invalid" in vr[i]]
     if not bad:
